@@ -22,7 +22,9 @@ RULE = ("operation sequences over names differing only in case + Set-Cookie casi
         "empty/None/non-string, checked after every step; non-trivial = at least two operations on a shared name")
 EXHAUSTIVE = {"quick": False, "thorough": False}
 
-NAMES = ["X-Test", "x-test", "X-TEST", "Set-Cookie", "set-cookie", "SET-COOKIE", "Content-Type", "content-type"]
+NAMES = ["X-Test", "x-test", "X-TEST", "Set-Cookie", "set-cookie", "SET-COOKIE", "Content-Type", "content-type",
+         # names that are parts of "set-cookie" or extend it: single-valued like any other
+         "Cookie", "cookie", "Set", "Set-Cookie2"]
 VALUES = ["a", "b c", "é", "Ž€", "\U0001F600", "", "x\"y\\z",
           # text whose UTF-8 bytes end or begin with 0x85 / 0xA0 (white space when read as latin-1), and white space kept as given
           "voilà", "МИР", "Ġ", "lineŅ", "àb", " lead", "trail ", "\ttab\t", " ",
